@@ -749,8 +749,10 @@ PROPS = {
              "exhaustive": "np-exhaustive", "exhaustive_always": True, "nontrivial": np_nontrivial, "distribution": np_dist},
             {"name": "tls", "quick": 500, "thorough": 20000, "head": 10, "unit": 1, "batch": 20000,
              "exhaustive": "tls-exhaustive", "exhaustive_always": True, "nontrivial": tls_nontrivial, "distribution": tls_dist},
+            dict(POOL_STREAM, quick=1500, thorough=50000),
         ],
-        "rule": "requests from a grammar - 11 methods incl. CONNECT, TRACE and an extension method; absolute URIs (9 schemes incl. odd "
+        "rule": "the pool stream's op histories (any poll, drop or task that panics is C17/pool-panic; idle timeouts none / 0 / 50 ms / 10 min / "
+                "Duration::MAX) | requests from a grammar - 11 methods incl. CONNECT, TRACE and an extension method; absolute URIs (9 schemes incl. odd "
                 "case and unknown ones x 15 host forms: DNS, IPv4, bracketed IPv6, punycode, underscore, URI-legal names rustls rejects; "
                 "ports absent/80/443/0/random; 8 paths; 5 queries), origin-form, authority-form and asterisk-form URIs; all five "
                 "http::Version constants; 0-3 headers incl. empty Host, Expect, Transfer-Encoding, mismatching Content-Length, values with "
@@ -884,6 +886,7 @@ PROPS = {
             {"name": "snie", "quick": 400, "thorough": 20000, "head": 8, "unit": 1, "batch": 5000,
              "nontrivial": lambda r: r["input"].split()[6] == "1" and r["input"].split()[7] != "-",
              "distribution": lambda rs: {"cases": len(rs), "http2": sum(r["input"].split()[1] == "1" for r in rs),
+                 "no_alpn_offered": sum(r["input"].split()[-1] == "na" for r in rs), "neither_sni_nor_alpn": sum(r["input"].split()[-1] == "na" and r["input"].split()[7] == "-" and r["input"].split()[6] == "1" for r in rs),
                  "tls": sum(r["input"].split()[6] == "1" for r in rs), "no_sni_sent": sum(r["input"].split()[6] == "1" and r["input"].split()[7] == "-" for r in rs),
                  "forwarded_validated": sum(r["obs"] == "fwd 1" for r in rs), "forwarded_plain": sum(r["obs"] == "fwd 0" for r in rs),
                  "rejected": sum(r["obs"] == "rej" for r in rs)}},
